@@ -136,9 +136,13 @@ func ApplyBuiltin(name string, a []interface{}) (interface{}, error) {
 		for _, x := range a {
 			switch x.(type) {
 			case bool, int64, string:
+			case []int64, []string, map[int64]struct{}, map[string]struct{}:
+				// a list or set is an operand of the wrong type for eq/ne,
+				// wherever it stands and whatever the other operands are
+				return berr(canon, "operand type")
 			default:
-				// equality of lists/sets/nil is not part of the documented
-				// semantics ("two values are equal")
+				// equality of nil and of values of other Go types is not part of
+				// the documented semantics ("two values are equal")
 				return nil, &OutOfDomain{Why: "eq/ne over a non-scalar"}
 			}
 		}
@@ -328,9 +332,9 @@ func ApplyBuiltin(name string, a []interface{}) (interface{}, error) {
 
 // refVersion: base-10000 positional value of the first n components, missing
 // components read as 0. Domain: every component is 1-4 decimal digits and
-// there are at most n of them (C19's domain); anything else the generator
-// produces on purpose is an error case (empty/non-numeric/too large within the
-// first n components). Strings outside both are out of domain.
+// anything else the generator produces on purpose is an error case
+// (empty/non-numeric/too large within the first n components); components
+// after the first n are ignored. Signed components are out of domain.
 func refVersion(s string, n int) (interface{}, error) {
 	parts := strings.Split(s, ".")
 	var acc int64
@@ -362,9 +366,8 @@ func refVersion(s string, n int) (interface{}, error) {
 		}
 		acc += v
 	}
-	if len(parts) > n {
-		return nil, &OutOfDomain{Why: "version with more components than the valid length"}
-	}
+	// components beyond the valid length do not count ("the count of valid
+	// version numbers"), whatever they contain
 	return acc, nil
 }
 
